@@ -159,7 +159,12 @@ func (qs *QueryStore) OnQueryChange(cb func(store.QueryChange)) {
 
 // Flush waits for the indexing queue to be cleared.
 func (qs *QueryStore) Flush() {
-	qs.tq.Flush()
+	// The task queue counts a task as done once it is dequeued, before it has
+	// run. Tasks run one at a time in the queued order, so wait for a task of
+	// our own to run: by then every earlier index update has completed.
+	done := make(chan struct{})
+	qs.tq.Do(func() { close(done) })
+	<-done
 }
 
 func (qs *QueryStore) handleChange(id string, before, after interface{}) {
